@@ -24,10 +24,25 @@ Runs == [modelOk : BOOLEAN, fileOk : BOOLEAN, lines : Files,
 Full(r) == [modelOk |-> r.modelOk, fileOk |-> r.fileOk, lines |-> r.lines, opt |-> r.opt, ext |-> r.ext,
             ctxOk |-> r.ctxOk, ctxLabels |-> r.ctxLabels, out |-> r.out,
             netVars |-> {"a"}, n |-> 1, lib |-> [j \in 1..2 |-> {j - 1}]]
-VARIABLE run
-Init == run \in Runs /\ \E oldThere \in BOOLEAN : CInitWith(oldThere)
-Next == CNext(Full(run)) /\ UNCHANGED run
-Spec == Init /\ [][Next]_<<cvars, run>> /\ WF_cvars(Next)
+VARIABLES run,
+          nEffV, failsV     \* number of effective formulae / does the run fail: functions of `run`, computed once
+mvars == <<cvars, run, nEffV, failsV>>
+InitFrom(RS) ==
+  /\ run \in RS /\ \E oldThere \in BOOLEAN : CInitWith(oldThere)
+  /\ nEffV = Len(Effective(Full(run))) /\ failsV = (FailsAt(Full(run)) # "none")
+Init == InitFrom(Runs)
+Next == CNext(Full(run)) /\ UNCHANGED <<run, nEffV, failsV>>
+Spec == Init /\ [][Next]_mvars /\ WF_cvars(Next)
+
+(* refinement: every behaviour of Cli.tla over this input space is a behaviour of the control skeleton        *)
+(* CliMachine.tla (whose safety properties are proved for every number of formulae in CliMachineProofs.tla)   *)
+AbsPrinted == [j \in 1..Len(printed) |-> [what |-> printed[j].what, idx |-> IF printed[j].what = "message" THEN 0 ELSE printed[j].idx]]
+AbsArchive == [written |-> archive.written, old |-> ("old" \in DOMAIN archive),
+               n |-> IF archive.written THEN Cardinality(DOMAIN archive.sets) ELSE 0]
+Abs == INSTANCE CliMachine WITH printed <- AbsPrinted, archive <- AbsArchive,
+         nEff <- nEffV, fails <- failsV, opt <- run.opt, out <- run.out
+RefInit == Abs!Init
+RefStep == [][Abs!Next \/ UNCHANGED Abs!vars]_mvars
 Inv == InOrder /\ FailQuiet /\ FailKeepsOld /\ Replaced /\ Complete(Full(run))
 Terminates == <>(pc \in {"done", "failed"})
 =============================================================================
